@@ -181,6 +181,8 @@ def generate(rng, tier):
         s["warm"] = rng.random() < 0.25
         s["on_loaded"] = rng.random() < 0.2
         s["callable"] = rng.choice(CALLABLE_KINDS)
+        if not s["on_loaded"] and "level" not in s and rng.random() < 0.15:
+            s["after_level"] = {"kind": "le", "k": rng.randrange(1, max(2, p["levelmax"]))}
     return {"world": p, "selections": sels}
 
 
@@ -252,6 +254,13 @@ def execute(case, stats):
                 except Exception:
                     pass  # the judged load below reports
             ds2 = None
+            if sel.get("after_level") and not sel.get("on_loaded"):
+                # the dataset object has made a level-capped load before (the cap belongs to that call alone)
+                stats.inc("probe.selective_load_on_a_dataset_that_made_a_level_capped_load")
+                try:
+                    ds2, _ = disk.load(select={"mesh": {"level": level_func(sel["after_level"])}})
+                except Exception:
+                    ds2 = None
             if sel.get("on_loaded"):
                 # the selective load is made on a dataset object that already holds the full load
                 stats.inc("probe.selective_load_on_a_dataset_holding_the_full_load")
@@ -358,5 +367,7 @@ def reductions(case, viol):
             yield dict(case, selections=sels[:i] + [dict(s, warm=False)] + sels[i + 1:])
         if s.get("on_loaded"):
             yield dict(case, selections=sels[:i] + [dict(s, on_loaded=False)] + sels[i + 1:])
+        if s.get("after_level"):
+            yield dict(case, selections=sels[:i] + [{k: v for k, v in s.items() if k != "after_level"}] + sels[i + 1:])
         if s.get("callable") not in (None, "function"):
             yield dict(case, selections=sels[:i] + [dict(s, callable="function")] + sels[i + 1:])
